@@ -10,7 +10,7 @@
 //   adjacent  exhaustive enumeration of 2..3 (thorough: 4) adjacent string/f-string/raw/triple literals x contexts
 //   grammar   grammar-based programs (valid by construction) + token/byte mutations making them near-valid
 //   mutfuzz   deterministic mutation fuzzer over windows of the seed corpus (token- and byte-level operators)
-//   depth     nesting-depth ladder per recursive construct, one child process per case
+//   depth     nesting-depth ladder per recursive construct (incl. long flat operator chains), one child process per case
 //
 // Every batch runs in a lib.Child process which records the case index before parsing it, so that a
 // process-fatal error is attributed to one input, which is then re-run alone to confirm.
@@ -463,6 +463,12 @@ func runJob(job jobSpec) {
 		// Inputs of the other streams are at most 32 KiB, so legitimate recursion needs a few MiB of stack;
 		// a lower limit only makes runaway recursion die sooner (the ladder runs at Go's default limit).
 		debug.SetMaxStack(256 << 20)
+	} else if job.To-job.From == 1 {
+		// ... except the long rungs of the flat operator chains (see flatStackMiB)
+		if dc := depthTable(job.Tier)[job.From]; dc.StackMiB > 0 {
+			debug.SetMaxStack(dc.StackMiB << 20)
+			res.Obs["depth_cases_run_under_lowered_stack_limit"]++
+		}
 	}
 	prog, _ := os.OpenFile(job.Progress, os.O_CREATE|os.O_WRONLY|os.O_TRUNC, 0o644)
 	single := job.To-job.From == 1
@@ -789,6 +795,16 @@ func (p *parent) runBatch(stream string, from, to int, input string) {
 		witness["input_shape"] = fmt.Sprintf("%q + %q x %d + %q + %q x %d + %q", c.prefix, c.unit, dc.Depth, c.mid, c.closeUnit, dc.Depth, c.suffix)
 		desc = fmt.Sprintf("%d-fold nesting of %q (%d bytes)", dc.Depth, c.unit, len(c.build(dc.Depth)))
 		keySuffix = "nesting-" + dc.Construct
+		if c.flat {
+			// every flat chain goes through the same recursion (right operand of a binary operator): one key,
+			// the chain that was found first (lowest case index) is the witness
+			keySuffix = "nesting-binop-chain"
+			desc = fmt.Sprintf("one expression that is a flat chain of %d x %q after %q (%d bytes, nothing bracketed)", dc.Depth, c.unit, c.prefix, len(c.build(dc.Depth)))
+			p.r.ObsDistinct("flat_operator_chains_that_killed_the_process", fmt.Sprintf("%s@%d", dc.Construct, dc.Depth))
+		}
+		if dc.StackMiB > 0 {
+			desc += fmt.Sprintf(", goroutine stack limit lowered to %d MiB (a parser that bounds its recursion at the documented 10000 levels x 2 KiB needs 20 MiB; with no bound, Go's default 1 GiB limit is exceeded by a proportionally longer chain)", dc.StackMiB)
+		}
 	} else if b, err := os.ReadFile(job.Out + ".input"); err == nil {
 		witness["input"] = clip(string(b), 2000)
 		witness["input_b64"] = b64(b, 64<<10)
@@ -906,12 +922,12 @@ func TestC19(t *testing.T) {
 	iplib.Quiet()
 	r := lib.Start("C19")
 	defer lib.End(t, r)
-	r.Rule = "one case = one byte string handed to asp.Parser.ParseData. Streams: every tracked BUILD-language file of the repository unchanged (trivial), exhaustive adjacent-literal sequences, grammar-generated programs with 0-9 token/byte mutations, mutated windows of seed files (1-20 operators), and a nesting-depth ladder per recursive construct. Distinct by SHA-256 of the bytes; non-trivial = non-empty and not byte-identical to a seed file"
+	r.Rule = "one case = one byte string handed to asp.Parser.ParseData. Streams: every tracked BUILD-language file of the repository unchanged (trivial), exhaustive adjacent-literal sequences, grammar-generated programs with 0-9 token/byte mutations, mutated windows of seed files (1-20 operators), and a nesting-depth/length ladder per recursive construct (brackets, calls, lambdas, inline ifs, property chains, ... and flat binary-operator chains +, and, or, ==, not in, is not, mixed, of up to 3 million terms). Distinct by SHA-256 of the bytes; non-trivial = non-empty and not byte-identical to a seed file"
 	r.Assumes = []string{
 		"ParseData is the parser entry point (ParseFile/ParseReader go through the same parseFileInput)",
 		"the error's dynamic type, its exported Stack field and (through unsafe) its wrapped error are read by reflection because asp's error type is unexported",
 		"a hang is declared only after one <=32 KiB input consumed 60 CPU-seconds in a process of its own; wall-clock limits only ever yield 'inconclusive'",
-		"stack overflows are provoked at Go's default stack limit (the same the plz binary runs with)",
+		"stack overflows are provoked at Go's default stack limit (the same the plz binary runs with), except on the 3-million-term rungs of the flat operator chains (a + a + ..., and/or, ==, mixed): those run under a 128 MiB limit, >6x what the parser's documented bound (10000 levels x 'a couple of kilobytes') needs, because at ~200 bytes of stack per term the default limit would need >5 million terms and GiBs of memory per case; the thorough tier also runs 10-million-term chains at the default limit",
 	}
 	repo := os.Getenv("VERIF_REPO_DIR")
 	if repo == "" {
